@@ -202,15 +202,19 @@ class Oracle:
 
     def cover(self, discs):
         """For each certified root (tiny disc, in .roots order) the list of indices of `discs`
-        that certainly contain it (tiny disc inside the closed query disc).  An empty list means
-        'not certainly covered' (either uncovered or the tiny disc straddles a boundary: check
-        with count() whether every disc is disjoint from it)."""
+        that certainly contain it (tiny disc inside the closed query disc).  Also sets
+        self.all_covered (every root certainly covered) and self.uncovered (per root: True = its tiny
+        disc is disjoint from every query disc, i.e. the root is certainly covered by none: a certified
+        violation).  Empty list and uncovered False = a tiny disc straddles a boundary: undecided."""
         self._need()
         self._send("cleardiscs\n")
         self.count(discs)
         self._send("cover\n")
         l = self._line()
         assert l.startswith("COVER")
+        u = self._line()
+        assert u.startswith("UNCOVERED")
+        self.uncovered = [x == "1" for x in u.split()[1:]]     # per root: certainly in NO query disc
         self.all_covered = (self._line() == "ALLCOVERED yes")
         self._send("cleardiscs\n")
         res = []
